@@ -194,6 +194,9 @@ def same(ctx, rep):
                     continue
                 if "digest" in x or "KeyIdMethod::derive" in x or "is PreSpecified" in x or "issuer.key_identifier_method" in x:
                     continue
+                if body.strip().startswith("IF ") and "self.use_authority_key_identifier_extension" in x and ("is PreSpecified" in " ".join(d_)):
+                    continue        # the AKI emission condition spelt per key-identifier arm in the crypto tree (each tree's
+                                    # condition is compared with the reference by C02.schema in its own configuration)
                 if "INTEGER(self.serial_number" in x:
                     continue        # the explicit serial, written under `IF some(..)` in one tree and unconditionally (the
                                     # crypto-less build has failed otherwise) in the other
